@@ -1551,6 +1551,16 @@ func (r *Runner) cmpEntry(op string, k int, e *MEntry, g otter.Entry[int, int]) 
 	if g.SnapshotAtNano != snap {
 		return r.fail(FRet, "%s(%d): SnapshotAtNano %d, want %d", op, k, g.SnapshotAtNano, snap)
 	}
+	// derived accessors of the returned snapshot (they are what calculators and callers read)
+	if g.HasExpired() {
+		return r.fail(FRet, "%s(%d): the returned entry reports HasExpired() (ExpiresAtNano %d, SnapshotAtNano %d)", op, k, g.ExpiresAtNano, g.SnapshotAtNano)
+	}
+	if g.ExpiresAt().UnixNano() != g.ExpiresAtNano || g.RefreshableAt().UnixNano() != g.RefreshableAtNano || g.SnapshotAt().UnixNano() != g.SnapshotAtNano {
+		return r.fail(FRet, "%s(%d): ExpiresAt/RefreshableAt/SnapshotAt disagree with the nanosecond fields of %+v", op, k, g)
+	}
+	if int64(g.ExpiresAfter()) != g.ExpiresAtNano-g.SnapshotAtNano || int64(g.RefreshableAfter()) != g.RefreshableAtNano-g.SnapshotAtNano {
+		return r.fail(FRet, "%s(%d): ExpiresAfter/RefreshableAfter are not the distance from the snapshot time in %+v", op, k, g)
+	}
 	if r.Facets&FDeadline == 0 {
 		// The property under judgement does not judge the deadlines themselves. The model keeps the deadlines the
 		// specification prescribes, so that what follows from a wrong deadline in the cache (an entry visible for too
